@@ -1452,11 +1452,17 @@ RCP<const Boolean> Complement::contains(const RCP<const Basic> &a) const
 
 RCP<const Set> Complement::set_union(const RCP<const Set> &o) const
 {
-    // A' U C = (A n C')'
+    // A' U C = (A n C')' within the universe, plus the part of C outside it
     RCP<const Set> ocomplement = o->set_complement(universe_);
     RCP<const Set> intersect
         = SymEngine::set_intersection({container_, ocomplement});
-    return intersect->set_complement(universe_);
+    RCP<const Set> within = intersect->set_complement(universe_);
+    RCP<const Set> outside = universe_->set_complement(o);
+    if (is_a<EmptySet>(*outside))
+        return within;
+    if (is_a<EmptySet>(*within))
+        return outside;
+    return make_set_union({within, outside});
 }
 
 RCP<const Set> Complement::set_intersection(const RCP<const Set> &o) const
